@@ -8,7 +8,8 @@
               (#append events) - (#remove events), per member x.
    Where the code violates the property there is a [_refuted] theorem with a concrete witness and a
    [_guarded] theorem for the complement (the guards are the boolean functions list_eq_guard,
-   list_acct_guard, set_eq_guard, dict_acct_guard of the model files). *)
+   list_acct_guard, set_eq_guard of the model files).  After the repairs 1d9f897, 2c3a941, b1144f3,
+   c982b6e three deviations remain: c[a:b] = c is ignored, c *= n fires no event, s -= s raises. *)
 From Coq Require Import List ZArith Bool Permutation.
 Import ListNotations.
 From SAV.base Require Import PySlice.
@@ -26,38 +27,29 @@ Theorem c38_list_ops_eq_python_guarded : forall op l g, list_eq_guard l op = tru
 Proof. exact list_op_eq_python. Qed.
 Print Assumptions c38_list_ops_eq_python_guarded.
 
-(* in particular slice assignment of a list / tuple with ANY start, stop, step (negative,
-   out of range, reversed, zero): no guard at all - this is the defect repaired by 1d9f897 *)
-Theorem c38_list_slice_assignment_eq_python : forall start stop step w l g,
-  let op := LSetSlice (mkslice start stop step) (VList w) in
+(* in particular slice assignment of anything but the collection itself - a list / tuple, an
+   iterator, a non-iterable - with ANY start, stop, step (negative, out of range, reversed, zero):
+   no guard at all (defects repaired by 1d9f897 and 2c3a941) *)
+Theorem c38_list_slice_assignment_eq_python : forall start stop step v l g, v <> VSelf ->
+  let op := LSetSlice (mkslice start stop step) v in
   fst (sa_list_op op (l, g)) = fst (py_list_op l op) /\
   fst (snd (sa_list_op op (l, g))) = snd (py_list_op l op).
 Proof. exact list_slice_assignment_eq_python. Qed.
 Print Assumptions c38_list_slice_assignment_eq_python.
 
+(* the one region left out: c[a:b] = c with step 1, unless the slice is the whole list *)
 Theorem c38_list_setslice_self_refuted : exists l op,
   list_eq_guard l op = false /\ sa_list_rc l op = (Ok RNone, [0;1;2]) /\
   py_list_op l op = (Ok RNone, [0;0;1;2;2]).
 Proof. exact refuted_setslice_self. Qed.
 Print Assumptions c38_list_setslice_self_refuted.
 
-Theorem c38_list_extslice_self_refuted : exists l op,
-  list_eq_guard l op = false /\ sa_list_rc l op = (Ok RNone, [0;0]) /\
-  py_list_op l op = (Ok RNone, [1;0]).
-Proof. exact refuted_extslice_self. Qed.
-Print Assumptions c38_list_extslice_self_refuted.
+(* the equality guard excludes exactly the defective region: wherever it is false the contents differ *)
+Theorem c38_list_eq_guard_exact : forall l op g, list_eq_guard l op = false ->
+  fst (snd (sa_list_op op (l, g))) <> snd (py_list_op l op).
+Proof. exact list_eq_guard_exact. Qed.
+Print Assumptions c38_list_eq_guard_exact.
 
-Theorem c38_list_setslice_noniterable_refuted : exists l op,
-  list_eq_guard l op = false /\ sa_list_run1 l op = (Raise TypeError, [2], [ERem 0; ERem 1]) /\
-  py_list_op l op = (Raise TypeError, [0;1;2]).
-Proof. exact refuted_setslice_noniterable. Qed.
-Print Assumptions c38_list_setslice_noniterable_refuted.
-
-Theorem c38_list_extslice_iterator_refuted : exists l op,
-  list_eq_guard l op = false /\ sa_list_run1 l op = (Raise TypeError, [0;1;2], []) /\
-  py_list_op l op = (Ok RNone, [7;1;8]).
-Proof. exact refuted_extslice_iterator. Qed.
-Print Assumptions c38_list_extslice_iterator_refuted.
 
 (* the events fired by an operation account exactly for the change of contents - also when the
    operation raises half way *)
@@ -67,12 +59,6 @@ Theorem c38_list_events_account_guarded : forall op l g r l' g',
   forall x, countZ x l' - countZ x l = net x g' - net x g.
 Proof. exact list_op_accounted. Qed.
 Print Assumptions c38_list_events_account_guarded.
-
-Theorem c38_list_remove_absent_refuted : exists l op,
-  list_acct_guard l op = false /\
-  sa_list_run1 l op = (Raise ValueError, l, [ERem 7]) /\ unaccounted l l [ERem 7].
-Proof. exact refuted_remove_absent. Qed.
-Print Assumptions c38_list_remove_absent_refuted.
 
 Theorem c38_list_imul_refuted : exists l op,
   list_acct_guard l op = false /\
@@ -160,19 +146,12 @@ Theorem c38_dict_ops_eq_python : forall op d g,
 Proof. exact dict_op_eq_python. Qed.
 Print Assumptions c38_dict_ops_eq_python.
 
-Theorem c38_dict_events_account_guarded : forall op d g r d' g',
-  d_wf d -> dict_acct_guard d op = true ->
-  sa_dict_op op (d, g) = (r, (d', g')) ->
+(* no exception either: every dict operation, d |= m included (c982b6e), is accounted *)
+Theorem c38_dict_events_account : forall op d g r d' g',
+  d_wf d -> sa_dict_op op (d, g) = (r, (d', g')) ->
   d_wf d' /\ forall x, countZ x (d_values d') - countZ x (d_values d) = net x g' - net x g.
 Proof. exact dict_op_accounted. Qed.
-Print Assumptions c38_dict_events_account_guarded.
-
-Theorem c38_dict_ior_refuted : exists d op,
-  dict_acct_guard d op = false /\
-  sa_dict_run1 d op = (Ok RSelf, [(0, 7); (1, 1); (5, 8)], []) /\
-  unaccounted (d_values d) [7; 1; 8] [].
-Proof. exact refuted_dict_ior. Qed.
-Print Assumptions c38_dict_ior_refuted.
+Print Assumptions c38_dict_events_account.
 
 Theorem c38_dict_history_eq_python : forall ops d g,
   fst (sa_dict_run ops (d, g)) = fst (py_dict_run ops d) /\
@@ -180,12 +159,11 @@ Theorem c38_dict_history_eq_python : forall ops d g,
 Proof. exact dict_history_eq_python. Qed.
 Print Assumptions c38_dict_history_eq_python.
 
-Theorem c38_dict_history_events_account_guarded : forall ops d g, d_wf d ->
-  dict_guarded ops (d, g) = true ->
+Theorem c38_dict_history_events_account : forall ops d g, d_wf d ->
   let '(_, (d', g')) := sa_dict_run ops (d, g) in
   d_wf d' /\ forall x, countZ x (d_values d') - countZ x (d_values d) = net x g' - net x g.
 Proof. exact dict_history_accounted. Qed.
-Print Assumptions c38_dict_history_events_account_guarded.
+Print Assumptions c38_dict_history_events_account.
 
 (* ============================== non-vacuity ============================== *)
 (* the three witnesses of the repaired slice-assignment defect: result, contents and the exact
@@ -205,6 +183,32 @@ Example c38_ex_fixed_stop_unclamped :
   = (Ok RNone, [0;7;2], [ERem 1; EAdd 7]) /\
   py_list_op [0;1;2] (LSetSlice (sl (Some 1) (Some 10) (Some 2)) (VList [7])) = (Ok RNone, [0;7;2]).
 Proof. exact fixed_stop_unclamped. Qed.
+
+(* formerly refuted, now positive (2c3a941, b1144f3, c982b6e) *)
+Example c38_ex_fixed_extslice_self :
+  sa_list_run1 [0;1] (LSetSlice (sl None None (Some (-1))) VSelf)
+  = (Ok RNone, [1;0], [ERem 1; EAdd 0; ERem 0; EAdd 1]) /\
+  py_list_op [0;1] (LSetSlice (sl None None (Some (-1))) VSelf) = (Ok RNone, [1;0]).
+Proof. exact fixed_extslice_self. Qed.
+Example c38_ex_fixed_setslice_noniterable :
+  sa_list_run1 [0;1;2] (LSetSlice (sl (Some 0) (Some 2) None) VNonIter)
+  = (Raise TypeError, [0;1;2], []) /\
+  py_list_op [0;1;2] (LSetSlice (sl (Some 0) (Some 2) None) VNonIter) = (Raise TypeError, [0;1;2]).
+Proof. exact fixed_setslice_noniterable. Qed.
+Example c38_ex_fixed_extslice_iterator :
+  sa_list_run1 [0;1;2] (LSetSlice (sl (Some 0) (Some 3) (Some 2)) (VIter [7;8]))
+  = (Ok RNone, [7;1;8], [ERem 0; EAdd 7; ERem 2; EAdd 8]) /\
+  py_list_op [0;1;2] (LSetSlice (sl (Some 0) (Some 3) (Some 2)) (VIter [7;8])) = (Ok RNone, [7;1;8]).
+Proof. exact fixed_extslice_iterator. Qed.
+Example c38_ex_fixed_remove_absent :
+  sa_list_run1 [0;1;2] (LRemove 7) = (Raise ValueError, [0;1;2], []) /\
+  sa_list_run1 [0;1;2] (LRemove 1) = (Ok RNone, [0;2], [ERem 1]).
+Proof. exact fixed_remove_absent. Qed.
+Example c38_ex_fixed_dict_ior :
+  sa_dict_run1 [(0, 0); (1, 1)] (DIor [(0, 7); (5, 8)])
+  = (Ok RSelf, [(0, 7); (1, 1); (5, 8)], [ERem 0; EAdd 7; EAdd 8]) /\
+  py_dict_op [(0, 0); (1, 1)] (DIor [(0, 7); (5, 8)]) = (Ok RSelf, [(0, 7); (1, 1); (5, 8)]).
+Proof. exact fixed_dict_ior. Qed.
 
 (* the guards hold on ordinary histories, which raise and mutate *)
 Example c38_ex_list_history :
@@ -230,7 +234,7 @@ Proof. vm_compute; reflexivity. Qed.
 
 Example c38_ex_dict_history :
   let ops := [DUpdate (UPairs [(0, 7); (2, 2); (0, 7)]) [(1, 1)]; DSetDefault 2 2; DPop 9 None; DPopItem] in
-  d_wf [(0, 0); (1, 1)] /\ dict_guarded ops ([(0, 0); (1, 1)], []) = true /\
+  d_wf [(0, 0); (1, 1)] /\
   sa_dict_run ops ([(0, 0); (1, 1)], []) =
     ([Ok RNone; Ok (RItem 2); Raise KeyError; Ok (RPair 2 2)],
      ([(0, 7); (1, 1)], [ERem 0; EAdd 7; EAdd 2; ESame 7; ESame 1; ESame 2; ERem 2])).
